@@ -377,9 +377,9 @@ VEX_REG_CLASSES = {"rvm": (0x72, 0x75, 0x73, 0x76), "rm": (0x68, 0x6B, 0x83, 0x8
                    # X86Jcc / X86Jmp / X86Call to a bound label: rel8 and rel32 forms
                    "lrel": (0x26, 0x28, 0x1C),
                    # X86Arith `op r16/r32/r64, imm` (81 /d iw|id, 83 /d ib)
-                   "larithimm": (0x19,), "laccimm": (0x19, 0x3D), "lrotx": (0x37,), "lm": (0x0E, 0x38), "lmovri": (0x2C,), "lmovrmi": (0x2C,), "lmovmi": (0x2C,), "larithmi": (0x19,), "ltestmi": (0x3D,), "lmoff": (0x2C, 0x2D), "lmoffst": (0x2C, 0x2D)}
+                   "larithimm": (0x19,), "laccimm": (0x19, 0x3D), "lrotx": (0x37,), "lm": (0x0E, 0x38), "lmovri": (0x2C,), "lmovrmi": (0x2C,), "lmovmi": (0x2C,), "larithmi": (0x19,), "ltestmi": (0x3D,), "lmoff": (0x2C, 0x2D), "lmoffst": (0x2C, 0x2D), "lmovsr": (0x2C,), "lmovrs": (0x2C,)}
 SHAPE_ROLES = {"rvm": ["reg", "vvvv", "rm"], "rm": ["reg", "rm"], "rvmi": ["reg", "vvvv", "rm", "imm"], "rmi": ["reg", "rm", "imm"],
-               "lrm": ["reg", "rm"], "lmr": ["rm", "reg"], "lrmi": ["reg", "rm", "imm"], "lop": None, "larith": ["rm", "reg"], "lrot": ["rm", "imm"], "larithi8": ["rm", "imm"], "lopreg": ["opc"], "larithrm": ["reg", "rm"], "lmov": ["rm", "reg"], "lmovrm": ["reg", "rm"], "mr": ["rm", "reg"], "mri": ["rm", "reg", "imm"], "llea": ["reg", "rm"], "lrel": ["rel"], "larithimm": ["rm", "imm"], "laccimm": ["none", "imm"], "lrotx": ["rm", "none"], "lm": ["rm"], "lmovri": ["opc", "imm"], "lmovrmi": ["rm", "imm"], "lmovmi": ["rm", "imm"], "larithmi": ["rm", "imm"], "ltestmi": ["rm", "imm"], "lmoff": ["none", "moff"], "lmoffst": ["moff", "none"]}
+               "lrm": ["reg", "rm"], "lmr": ["rm", "reg"], "lrmi": ["reg", "rm", "imm"], "lop": None, "larith": ["rm", "reg"], "lrot": ["rm", "imm"], "larithi8": ["rm", "imm"], "lopreg": ["opc"], "larithrm": ["reg", "rm"], "lmov": ["rm", "reg"], "lmovrm": ["reg", "rm"], "mr": ["rm", "reg"], "mri": ["rm", "reg", "imm"], "llea": ["reg", "rm"], "lrel": ["rel"], "larithimm": ["rm", "imm"], "laccimm": ["none", "imm"], "lrotx": ["rm", "none"], "lm": ["rm"], "lmovri": ["opc", "imm"], "lmovrmi": ["rm", "imm"], "lmovmi": ["rm", "imm"], "larithmi": ["rm", "imm"], "ltestmi": ["rm", "imm"], "lmoff": ["none", "moff"], "lmoffst": ["moff", "none"], "lmovsr": ["rm", "reg"], "lmovrs": ["reg", "rm"]}
 
 
 COVER_NAMES = {}      # shape -> instruction names with an entry in that chunk (filled by class_rows_lean)
@@ -407,6 +407,8 @@ def class_rows_lean(kept, rows, chunk=96):
                 continue
             if int(r[1]) == 0x2C and shape in ("lrm", "lmr") and not any(o["reg"] in ("creg", "dreg") for o in f["operands"]):
                 continue      # X86Mov: only the control / debug register moves go through the generic [reg, rm] / [rm, reg] theorems
+            if shape == "lmovsr" and f["operands"][1]["reg"] != "sreg" or shape == "lmovrs" and f["operands"][0]["reg"] != "sreg":
+                continue
             if shape in ("larithmi", "lmovmi", "ltestmi") and not f["operands"][0]["mem"]:
                 continue
             if shape == "lmovrmi" and f["operands"][0]["reg"] != "r64":
